@@ -83,7 +83,9 @@ func hwExcluded(op string) string {
 		return "changes the floating-point environment of the process"
 	case op == "STMXCSR", op == "VSTMXCSR":
 		return "reads MXCSR, which is not part of the modelled state"
-	case strings.Contains(op, "GATHER"), strings.Contains(op, "SCATTER"), op == "MASKMOVDQU", op == "MASKMOVOU", op == "VMASKMOVDQU", op == "XLAT":
+	case strings.Contains(op, "GATHERPF"), strings.Contains(op, "SCATTERPF"):
+		return "prefetch (AVX512PF)"
+	case op == "MASKMOVDQU", op == "MASKMOVOU", op == "VMASKMOVDQU", op == "XLAT":
 		return "implicit memory access"
 	case strings.HasPrefix(op, "VP4"), strings.HasPrefix(op, "V4F"):
 		return "AVX512_4VNNIW/4FMAPS (multi-register operands)"
@@ -98,6 +100,7 @@ type hwInst struct {
 	Base, Index      int // GP numbers of the memory operand's registers, -1 when absent
 	MemOut           bool
 	MemSize          int
+	VIndex           int // Z number of a vector index register (gather/scatter), -1 otherwise
 	In   [][2]int // (word index, byte-class mask for GP / 0xff.. for others) declared inputs
 	Out  [][2]int
 }
@@ -198,6 +201,7 @@ type inst struct {
 	Base, Index int
 	MemOut bool
 	MemSize int
+	VIndex int
 }
 
 var membuf [512]byte
@@ -215,6 +219,11 @@ func run(k int, in *inst, s *state, o *state) {
 	}
 	if in.Index >= 0 {
 		s[in.Index] = 8
+	}
+	if in.VIndex >= 0 { // gather/scatter: every index lane small, so that every element address lies in the scratch area
+		for w := 0; w < 8; w++ {
+			s[24+8*in.VIndex+w] = s[24+8*in.VIndex+w] % 16
+		}
 	}
 	m := (*[32]uint64)(unsafe.Pointer(mp))
 	copy(m[:], s[281:313])
@@ -248,6 +257,15 @@ func randState(s *state) {
 		}
 	}
 	s[280] = (rnd() & 0x8d5) | 0x202 // arithmetic flags only, IF set
+}
+
+// memory bytes the instruction may touch: the operand itself, or for a vector-indexed operand every
+// element address (base + 64 + index*scale with index < 16, scale <= 8, element <= 8 bytes)
+func memRange(in *inst) (int, int) {
+	if in.VIndex >= 0 {
+		return 64, 64 + 15*8 + 8
+	}
+	return 128, 128 + in.MemSize
 }
 
 func covered(ls []loc, w int) uint64 {
@@ -299,7 +317,7 @@ func main() {
 				if in.MemOut {
 					for b := 0; b < 8; b++ {
 						off := (w-281)*8 + b
-						if off >= 128 && off < 128+in.MemSize {
+						if lo, hi := memRange(&in); off >= lo && off < hi {
 							wm |= 0xff << uint(8*b)
 						}
 					}
@@ -338,7 +356,7 @@ func main() {
 					continue
 				}
 				b, n := regOf(w)
-				if b != w || w == in.Base || w == in.Index {
+				if b != w || w == in.Base || w == in.Index || (in.VIndex >= 0 && w == 24+8*in.VIndex) {
 					continue
 				}
 				s2 := s
@@ -393,7 +411,7 @@ func main() {
 					var fm uint64
 					for b := 0; b < 8; b++ {
 						off := (w-281)*8 + b
-						if off < 128 || off >= 128+in.MemSize {
+						if lo, hi := memRange(&in); off < lo || off >= hi {
 							fm |= 0xff << uint(8*b)
 						}
 					}
@@ -444,6 +462,7 @@ func hwRun(c *Ctx, insts []*hwInst, trials int) (viols []map[string]any, faulted
 		Base, Index int
 		MemOut      bool
 		MemSize     int
+		VIndex      int
 	}
 	var meta []ji
 	for k, in := range insts {
@@ -455,7 +474,7 @@ func hwRun(c *Ctx, insts []*hwInst, trials int) (viols []map[string]any, faulted
 		fmt.Fprintf(&tab, "func f%d(in, out *state)\n", k)
 	}
 	for _, in := range insts {
-		m := ji{Line: in.Line, Base: in.Base, Index: in.Index, MemOut: in.MemOut, MemSize: in.MemSize}
+		m := ji{Line: in.Line, Base: in.Base, Index: in.Index, MemOut: in.MemOut, MemSize: in.MemSize, VIndex: in.VIndex}
 		add := func(rs []reg.Register, dst *[]jl) {
 			for _, r := range rs {
 				if w, n, bm, ok := hwLoc(r); ok {
@@ -564,8 +583,8 @@ func hwEligible(i *ir.Instruction) (string, bool) {
 		case operand.Rel, operand.LabelRef:
 			return "relative operand", false
 		case operand.Mem:
-			if o.Base == nil || o.Symbol.Name != "" || (o.Index != nil && o.Index.Kind() != reg.KindGP) {
-				return "symbolic or vector-indexed memory operand", false
+			if o.Base == nil || o.Symbol.Name != "" {
+				return "symbolic memory operand", false
 			}
 			if strings.HasPrefix(i.Opcode, "BT") && len(i.Operands) == 2 {
 				if _, isreg := i.Operands[0].(reg.Register); isreg {
@@ -687,6 +706,10 @@ func hwSample(t string, r *RNG, nvec int) (operand.Op, bool) {
 		return vec(reg.S512), true
 	case "K":
 		return Pick(r, []reg.Register{reg.K1, reg.K2, reg.K3, reg.K4, reg.K5, reg.K6, reg.K7}), true
+	case "VM32X", "VM64X", "VM32Y", "VM64Y", "VM32Z", "VM64Z":
+		g64 := []reg.Register{reg.RAX, reg.RCX, reg.RDX, reg.RBX, reg.RBP, reg.RSI, reg.RDI, reg.R8, reg.R9, reg.R10, reg.R11, reg.R12, reg.R13, reg.R14, reg.R15}
+		spec := map[byte]reg.Spec{'X': reg.S128, 'Y': reg.S256, 'Z': reg.S512}[t[len(t)-1]]
+		return operand.Mem{Base: Pick(r, g64), Index: vec(spec), Scale: Pick(r, []uint8{1, 2, 4, 8}), Disp: 64}, true
 	case "M", "M8", "M16", "M32", "M64", "M128", "M256", "M512":
 		g64 := []reg.Register{reg.RAX, reg.RCX, reg.RDX, reg.RBX, reg.RBP, reg.RSI, reg.RDI, reg.R8, reg.R9, reg.R10, reg.R11, reg.R12, reg.R13, reg.R14, reg.R15}
 		m := operand.Mem{Base: Pick(r, g64), Disp: 128}
@@ -800,11 +823,13 @@ func c04hw(c *Ctx, d *formsDump, ctors map[string]*ctorInfo, names []string, opc
 					skipped[why]++
 					continue
 				}
-				in := &hwInst{I: i, Line: hwLine(i), Sig: hwSig(df[1:], i), Base: -1, Index: -1}
+				in := &hwInst{I: i, Line: hwLine(i), Sig: hwSig(df[1:], i), Base: -1, Index: -1, VIndex: -1}
 				for k, op := range i.Operands {
 					if m, ok := op.(operand.Mem); ok {
 						in.Base = int(reg.ToPhysical(m.Base).PhysicalIndex())
-						if m.Index != nil {
+						if m.Index != nil && m.Index.Kind() == reg.KindVector {
+							in.VIndex = int(reg.ToPhysical(m.Index).PhysicalIndex())
+						} else if m.Index != nil {
 							in.Index = int(reg.ToPhysical(m.Index).PhysicalIndex())
 						}
 						fmt.Sscanf(strings.ToLower(df[1+k]), "m%d", &in.MemSize)
